@@ -770,7 +770,15 @@ func (p *parser) assignCallee(exp ast.Expression, calleeIdent *ast.Identifier) (
 			p.errors = append(p.errors, msg)
 		}
 	case *ast.CallExpression:
-		ss.Callee = calleeIdent
+		// a[i].b.f(): b is already the callee of f (parseCallExpression); hang a[i] at the root of that chain
+		if id, ok := ss.Callee.(*ast.Identifier); ok {
+			for id.Callee != nil {
+				id = id.Callee
+			}
+			id.Callee = calleeIdent
+		} else {
+			ss.Callee = calleeIdent
+		}
 		assignedCallee = ss
 	case *ast.Identifier:
 		ss.OriginalCallee.Callee = calleeIdent
